@@ -30,6 +30,8 @@ def sig_light_train(desc, events, inv):
 
 
 def nontrivial(d):
+    if d.get("kind") == "ctrl":
+        return d["n"] > 0
     if d.get("kind") == "table":
         v = [z[1] for z in d["zones"]]
         return any(v[i] < v[i - 1] for i in range(1, len(v)))          # a braking curve other than the final stop
@@ -52,6 +54,10 @@ def vacuity(r):
         return "more than a quarter of the generated networks were rejected"
     if s.get("toy_tables", 0) == 0:
         return "no BrakingCurve table case was replayed"
+    if s.get("ctrl_runs", 0) == 0 or s.get("lookups", 0) == 0:
+        return "no Controller run was replayed / no table lookup was checked"
+    if s.get("ic_bad", 0):
+        return "the harness' projection of BrakingPoints.idx_curr disagrees with its JSON image"
     if s.get("dom_short", 0) == 0 or s.get("dom_light", 0) == 0:
         return "the known inputs of F-C03-1 / F-C03-2 were not replayed"
     return None
@@ -173,9 +179,16 @@ GROUP = dict(
     name="control", bin="avh_control",
     model_spec="MCBrakingCurve.tla", trace_spec="ControlTrace.tla", trace_cfg="ControlTrace.cfg",
     models={
-        "quick": [dict(cfg="MCBrakingCurve_quick.cfg", emit=True, max_emit=1000, workers=8, timeout=300)],
+        "quick": [dict(cfg="MCBrakingCurve_quick.cfg", emit=True, max_emit=1000, workers=8, timeout=300),
+                  # the controller composed with the table: every admitted quick profile x environment x every force
+                  # choice at every step (exhaustive), then scripted runs emitted for the step-by-step replay
+                  dict(spec="MCController.tla", cfg="MCController_quick.cfg", emit=False, workers=8, timeout=600),
+                  dict(spec="MCController.tla", cfg="MCController_replay.cfg", emit=True, max_emit=600, workers=8, timeout=300)],
         "thorough": [dict(cfg="MCBrakingCurve_quick.cfg", emit=True, workers=8, timeout=300),
-                     dict(cfg="MCBrakingCurve_thorough.cfg", emit=True, max_emit=20000, workers=16, timeout=1800)],
+                     dict(cfg="MCBrakingCurve_thorough.cfg", emit=True, max_emit=20000, workers=16, timeout=1800),
+                     dict(spec="MCController.tla", cfg="MCController_thorough.cfg", emit=False, workers=16, timeout=900),
+                     dict(spec="MCController.tla", cfg="MCController_live.cfg", emit=False, workers=8, timeout=900),
+                     dict(spec="MCController.tla", cfg="MCController_replay.cfg", emit=True, workers=8, timeout=300)],
     },
     gen_n={"quick": 300, "thorough": 4000},
     per_case_ms=5000,         # a normal run takes 1-30 ms, the longest known stuck run (35 000 steps) 0.2 s
@@ -191,12 +204,22 @@ GROUP = dict(
                         braking_tables_checked=res["stats"].get("tables", 0),
                         toy_tables_replayed=res["stats"].get("toy_tables", 0),
                         toy_tables_differing_from_model=res["stats"].get("drift", 0),
-                        library_walks_differing_from_harness_loop=res["stats"].get("walk_differs", 0))),
+                        library_walks_differing_from_harness_loop=res["stats"].get("walk_differs", 0),
+                        # Level B of the controller: drift is counted, never an alarm
+                        controller_runs_replayed=res["stats"].get("ctrl_runs", 0),
+                        controller_steps_replayed=res["stats"].get("ctrl_steps", 0),
+                        ctrl_drift=res["stats"].get("ctrl_drift", 0),
+                        lookups_checked_against_serialised_table=res["stats"].get("lookups", 0),
+                        lookup_drift=res["stats"].get("lookup_drift", 0))),
     },
     sigs={"short_window": sig_short_window, "light_train": sig_light_train},
     vacuity=vacuity,
     # bin/selftest: the pinned algorithm on EVERY profile must violate the table invariants (re-finds F-C03-1) ...
     fault_models=[dict(cfg="MCBrakingCurve_pinned.cfg", expect=["TableSafe", "TargetLeLimit", "Monotone"]),
+                  # the composed controller overspeeds on ShortWindow profiles (F-C03-1) and stalls before a window that is
+                  # shorter than the stretch with speed_target = 0 (F-C03-2)
+                  dict(spec="MCController.tla", cfg="MCController_shortwindow.cfg", expect=["CPosted", "CNoPanic"]),
+                  dict(spec="MCController.tla", cfg="MCController_stall.cfg", expect=["CProgress", "CStopWindow"]),
                   dict(cfg="MCBrakingCurve_underflow.cfg", expect=["NoUnderflow"])],
     # ... and every monitor of the trace spec must fail at exactly the record that was corrupted
     corrupt=CORRUPT, selftest_cases=12,
